@@ -1,1 +1,170 @@
 import Proofs.Lemmas.Compact
+
+/-!
+Helper lemmas for C13: `expand` and `concat`.
+-/
+
+namespace Compact
+
+/-- `expand` with the two value tables explicit -/
+def gp (P S : List Row) : List (Nat × Nat) → Option (List (Row × Row))
+  | [] => some []
+  | p :: ps =>
+    match P[p.1]?, S[p.2]?, gp P S ps with
+    | some a, some b, some r => some ((a, b) :: r)
+    | _, _, _ => none
+
+theorem expand_go_eq_gp (c : Compact) (l : List (Nat × Nat)) : expand.go c l = gp c.P c.S l := by
+  induction l with
+  | nil => rfl
+  | cons p ps ih =>
+    simp only [expand.go, gp, ih]
+    cases c.P[p.1]? <;> cases c.S[p.2]? <;> cases gp c.P c.S ps <;> rfl
+
+theorem expand_eq_gp (c : Compact) : expand c = gp c.P c.S c.pairs := expand_go_eq_gp c c.pairs
+
+/-- indices in range (first part of `Valid`) -/
+def InRange (c : Compact) : Prop := ∀ p ∈ c.pairs, p.1 < c.P.length ∧ p.2 < c.S.length
+
+theorem Valid.inRange {c : Compact} (h : Valid c) : InRange c := h.1
+
+theorem gp_spec (P S : List Row) (l : List (Nat × Nat))
+    (h : ∀ p ∈ l, p.1 < P.length ∧ p.2 < S.length) :
+    ∃ e, gp P S l = some e ∧ e.length = l.length ∧
+      ∀ k (hk : k < l.length), e[k]? = some (P[l[k].1]'(h _ (List.getElem_mem hk)).1,
+                                              S[l[k].2]'(h _ (List.getElem_mem hk)).2) := by
+  induction l with
+  | nil => exact ⟨[], rfl, rfl, by simp⟩
+  | cons p ps ih =>
+    obtain ⟨e, he, hl, hs⟩ := ih (fun q hq => h q (List.mem_cons_of_mem _ hq))
+    have hp := h p (List.mem_cons_self ..)
+    refine ⟨(P[p.1]'hp.1, S[p.2]'hp.2) :: e, ?_, by simp [hl], ?_⟩
+    · simp [gp, he, List.getElem?_eq_getElem hp.1, List.getElem?_eq_getElem hp.2]
+    · intro k hk
+      cases k with
+      | zero => simp
+      | succ k => simpa using hs k (by simpa using hk)
+
+theorem gp_none (P S : List Row) (l : List (Nat × Nat))
+    (h : ∃ p ∈ l, P.length ≤ p.1 ∨ S.length ≤ p.2) : gp P S l = none := by
+  induction l with
+  | nil => simp at h
+  | cons p ps ih =>
+    obtain ⟨q, hq, hb⟩ := h
+    unfold gp
+    rcases List.mem_cons.mp hq with rfl | hq
+    · rcases hb with hb | hb
+      · rw [List.getElem?_eq_none hb]
+      · rw [List.getElem?_eq_none hb]
+        split <;> simp_all
+    · rw [ih ⟨q, hq, hb⟩]
+      split <;> simp_all
+
+theorem gp_append (P S : List Row) (l1 l2 : List (Nat × Nat)) (e1 e2 : List (Row × Row))
+    (h1 : gp P S l1 = some e1) (h2 : gp P S l2 = some e2) : gp P S (l1 ++ l2) = some (e1 ++ e2) := by
+  induction l1 generalizing e1 with
+  | nil => simp [gp] at h1; subst h1; simpa using h2
+  | cons p ps ih =>
+    unfold gp at h1
+    split at h1
+    · rename_i a b r ha hb hr
+      simp only [Option.some.injEq] at h1; subst h1
+      simp only [List.cons_append, gp, ha, hb, ih r hr]
+    · simp at h1
+
+theorem getElem?_mid {α : Type} (pre mid post : List α) (i : Nat) (hi : i < mid.length) :
+    (pre ++ (mid ++ post))[i + pre.length]? = mid[i]? := by
+  rw [List.getElem?_append_right (by omega)]
+  simp only [Nat.add_sub_cancel]
+  rw [List.getElem?_append_left hi]
+
+theorem gp_shift (Ppre P X Spre S Y : List Row) (l : List (Nat × Nat))
+    (h : ∀ p ∈ l, p.1 < P.length ∧ p.2 < S.length) :
+    gp (Ppre ++ (P ++ X)) (Spre ++ (S ++ Y)) (shift Ppre.length Spre.length l) = gp P S l := by
+  induction l with
+  | nil => rfl
+  | cons p ps ih =>
+    have hp := h p (List.mem_cons_self ..)
+    have ih' := ih (fun q hq => h q (List.mem_cons_of_mem _ hq))
+    simp only [shift, List.map_cons] at ih' ⊢
+    simp only [gp, getElem?_mid _ _ _ _ hp.1, getElem?_mid _ _ _ _ hp.2, ih']
+
+/-- generalised statement: the part of `concat` built from offsets `|Ppre|`, `|Spre|`
+expands, on the full tables, to the concatenation of the individual expansions -/
+theorem gp_concatGo (ds : List Compact) (Ppre Spre : List Row) (h : ∀ d ∈ ds, InRange d) :
+    ∃ es, expandAll ds = some es ∧
+      gp (Ppre ++ (concatGo Ppre.length Spre.length ds).P)
+         (Spre ++ (concatGo Ppre.length Spre.length ds).S)
+         (concatGo Ppre.length Spre.length ds).pairs = some es.flatten := by
+  induction ds generalizing Ppre Spre with
+  | nil => exact ⟨[], rfl, rfl⟩
+  | cons d ds ih =>
+    have hd : InRange d := h d (List.mem_cons_self ..)
+    obtain ⟨e, he, -, -⟩ := gp_spec d.P d.S d.pairs hd
+    obtain ⟨es, hes, hg⟩ := ih (Ppre ++ d.P) (Spre ++ d.S) (fun x hx => h x (List.mem_cons_of_mem _ hx))
+    refine ⟨e :: es, ?_, ?_⟩
+    · simp only [expandAll, expand_eq_gp, he, hes]
+    · simp only [concatGo, List.flatten_cons]
+      simp only [List.length_append, List.append_assoc] at hg
+      apply gp_append
+      · rw [gp_shift _ _ _ _ _ _ _ hd]; exact he
+      · exact hg
+
+/-! ## validity of the concatenation -/
+
+def ValidOff (np ns : Nat) (c : Compact) : Prop :=
+  (∀ p ∈ c.pairs, np ≤ p.1 ∧ p.1 < np + c.P.length ∧ ns ≤ p.2 ∧ p.2 < ns + c.S.length) ∧
+  (∀ i, i < c.P.length → ∃ p ∈ c.pairs, p.1 = np + i) ∧
+  (∀ j, j < c.S.length → ∃ p ∈ c.pairs, p.2 = ns + j)
+
+theorem validOff_zero {c : Compact} : ValidOff 0 0 c ↔ Valid c := by
+  unfold ValidOff Valid
+  simp
+
+theorem validOff_concatGo (ds : List Compact) (np ns : Nat) (h : ∀ d ∈ ds, Valid d) :
+    ValidOff np ns (concatGo np ns ds) := by
+  induction ds generalizing np ns with
+  | nil => exact ⟨by simp [concatGo], by simp [concatGo], by simp [concatGo]⟩
+  | cons d ds ih =>
+    obtain ⟨hd1, hd2, hd3⟩ := h d (List.mem_cons_self ..)
+    obtain ⟨i1, i2, i3⟩ := ih (np + d.P.length) (ns + d.S.length)
+      (fun x hx => h x (List.mem_cons_of_mem _ hx))
+    simp only [concatGo]
+    refine ⟨?_, ?_, ?_⟩
+    · intro p hp
+      simp only [List.mem_append, shift, List.mem_map, List.length_append] at hp ⊢
+      rcases hp with ⟨q, hq, rfl⟩ | hp
+      · have := hd1 q hq
+        simp only; omega
+      · have := i1 p hp
+        omega
+    · intro i hi
+      simp only [List.length_append] at hi
+      by_cases hlt : i < d.P.length
+      · obtain ⟨q, hq, e⟩ := hd2 i hlt
+        refine ⟨(q.1 + np, q.2 + ns), ?_, by simp only; omega⟩
+        simp only [List.mem_append, shift, List.mem_map]
+        exact Or.inl ⟨q, hq, rfl⟩
+      · obtain ⟨q, hq, e⟩ := i2 (i - d.P.length) (by omega)
+        exact ⟨q, List.mem_append_right _ hq, by omega⟩
+    · intro j hj
+      simp only [List.length_append] at hj
+      by_cases hlt : j < d.S.length
+      · obtain ⟨q, hq, e⟩ := hd3 j hlt
+        refine ⟨(q.1 + np, q.2 + ns), ?_, by simp only; omega⟩
+        simp only [List.mem_append, shift, List.mem_map]
+        exact Or.inl ⟨q, hq, rfl⟩
+      · obtain ⟨q, hq, e⟩ := i3 (j - d.S.length) (by omega)
+        exact ⟨q, List.mem_append_right _ hq, by omega⟩
+
+theorem concatGo_lengths (ds : List Compact) (np ns : Nat) :
+    (concatGo np ns ds).pairs.length = (ds.map (·.pairs.length)).sum ∧
+    (concatGo np ns ds).P = (ds.map (·.P)).flatten ∧
+    (concatGo np ns ds).S = (ds.map (·.S)).flatten := by
+  induction ds generalizing np ns with
+  | nil => simp [concatGo]
+  | cons d ds ih =>
+    obtain ⟨h1, h2, h3⟩ := ih (np + d.P.length) (ns + d.S.length)
+    simp [concatGo, shift, h1, h2, h3]
+
+end Compact
